@@ -1,16 +1,23 @@
 (* C08 — PLY files written by other tools load to what the specification says.
    Statements only; proofs live in Formats/PlyReadProofs.v, vocabulary in Formats/PlyReadSpec.v,
-   the model of formats/ply/reader*.go in Formats/PlyRead.v. *)
+   the model of formats/ply/reader*.go in Formats/PlyRead.v (tied to the Go code by Check/C08.v on every run).
+
+   Reading guide.  A vertex element declares properties [ps : list (type * name)] in header order; a record
+   assigns one word per property ([vals]); [encode_record] / [encode_vertices_*] / [enc_face_*] are the reference
+   encoder of the specification's grammar (ascii tokens, little- and big-endian bytes).  The reader model is
+   [read_vertices_bin/ascii] with the built readers [bs], [faces_bin], [parse_header]. *)
 From PF Require Import Base.Bytes Formats.PlyRead Formats.PlyReadSpec Formats.PlyReadProofs.
 From Coq Require Import String.
 Open Scope list_scope.
 Open Scope N_scope.
 
-(* "vertex i carries exactly the values of record i", field level.  For every list of declared properties
-   (any order, any mix of the eight scalar types), every record whose values fit their types, each of the three
-   encodings and every declared property: the layout function (byte offset / column computed from header order
-   and type sizes, as the Go builders do) finds the property, and reading a field of the declared type at that
-   offset of the encoded record returns exactly the value the record assigns to the property. *)
+(* ---- "vertex i carries exactly the values of record i" ---- *)
+
+(* Field level.  For every list of declared properties (any order, any mix of the eight scalar types), every record
+   whose values fit their types, each of the three encodings and every declared property: the layout function (byte
+   offset / column computed from header order and type sizes, as the Go builders do: [find_v1_is_offsets]) finds
+   the property, and reading a field of the declared type at that offset of the encoded record returns exactly
+   the value the record assigns to the property. *)
 Theorem layout_reads_record : forall (f : fmt) (ps : vprops) (vals : list N) (name : string),
   record_ok ps vals -> In name (names ps) ->
   exists off t, offsets (is_bin f) ps name = Some (off, t) /\
@@ -18,3 +25,131 @@ Theorem layout_reads_record : forall (f : fmt) (ps : vprops) (vals : list N) (na
                 read_field f off t (encode_record f ps vals) = value_of f ps vals name.
 Proof. exact layout_reads_record_proof. Qed.
 Print Assumptions layout_reads_record.
+
+(* the layout function IS what Vector1PropertyReader.build{Ascii,Binary} computes *)
+Theorem find_v1_is_offsets : forall bin name (ps : vprops),
+  find_v1 bin name (scalars ps) 0 = Ok (offsets bin ps name).
+Proof. intros. apply find_v1_offsets. Qed.
+Print Assumptions find_v1_is_offsets.
+
+(* Record level, binary (both byte orders).  For ANY set of built readers: reading n records from the encoded
+   vertex block yields, as row i, what the readers return on the encoding of record i, and leaves exactly the
+   bytes that follow the block (so the face element starts where it should). *)
+Theorem vertex_i_is_record_i : forall e (ps : vprops) (recs : list (list N)) bs rest rows,
+  Forall (record_ok ps) recs ->
+  mapR (fun rec => row_bin e bs (enc_record_bin e (map fst ps) rec)) recs = Ok rows ->
+  read_vertices_bin e bs (record_size (scalars ps)) (List.length recs) (encode_vertices_bin e ps recs ++ rest) = Ok (rows, rest) /\
+  forall i rec, nth_error recs i = Some rec ->
+    exists row, nth_error rows i = Some row /\ row_bin e bs (enc_record_bin e (map fst ps) rec) = Ok row.
+Proof. exact vertex_i_is_record_i_bin_proof. Qed.
+Print Assumptions vertex_i_is_record_i.
+
+(* Record level, ascii. *)
+Theorem vertex_i_is_record_i_ascii : forall (ps : vprops) (recs : list (list N)) bs rest rows,
+  ps <> [] -> Forall (fun rec => List.length rec = List.length ps) recs ->
+  mapR (fun rec => row_ascii bs (enc_record_ascii (map fst ps) rec)) recs = Ok rows ->
+  read_vertices_ascii bs (List.length ps) (encode_vertices_ascii ps recs ++ rest) (List.length recs) = Ok (rows, rest) /\
+  forall i rec, nth_error recs i = Some rec ->
+    exists row, nth_error rows i = Some row /\ row_ascii bs (enc_record_ascii (map fst ps) rec) = Ok row.
+Proof. exact vertex_i_is_record_i_ascii_proof. Qed.
+Print Assumptions vertex_i_is_record_i_ascii.
+
+(* ---- extra unrecognised properties become scalar attributes with the record's value ---- *)
+
+(* binary: the reader LoadUnspecifiedProperties builds for a declared property exists, carries the property's own
+   name as attribute, and on the encoded record returns the float64 image of the record's word (uchar -> b/255,
+   int -> float64(int32), float -> widened, double -> as stored); the four other scalar types are reported as
+   unimplemented by the Go code. *)
+Theorem unclaimed_become_scalars_bin : forall e attr name (ps : vprops) vals,
+  record_ok ps vals -> In name (names ps) ->
+  exists b t w, build_v1 true attr name (scalars ps) = Ok (Some b) /\ b_attr b = attr /\
+    field_word ps vals name = Some (t, w) /\
+    read_bin_row e b (enc_record_bin e (map fst ps) vals) =
+      (if vertex_ty_ok t then dor v <- mesh_value t w; Ok [v] else Err EDeclared).
+Proof. exact scalar_reader_bin. Qed.
+Print Assumptions unclaimed_become_scalars_bin.
+
+(* ascii: the same reader returns the float64 the token denotes; for int, float and double that is the value
+   the binary reader computes ([ascii_value_agrees]); for uchar it is the RAW byte value, not b/255 — the pinned
+   behaviour recorded as known finding ply:ascii-uchar-scalar-raw. *)
+Theorem unclaimed_become_scalars_ascii : forall attr name (ps : vprops) vals,
+  List.length vals = List.length ps -> In name (names ps) ->
+  exists b t w, build_v1 false attr name (scalars ps) = Ok (Some b) /\ b_attr b = attr /\
+    field_word ps vals name = Some (t, w) /\
+    read_ascii_row b (enc_record_ascii (map fst ps) vals) =
+      of_opt EDeclared (option_map (fun v => [v]) (tok_f64 (tok_of_word t w))).
+Proof. exact scalar_reader_ascii. Qed.
+Print Assumptions unclaimed_become_scalars_ascii.
+
+Theorem ascii_value_agrees : forall t w, t = Int \/ t = Float \/ t = Double ->
+  mesh_value t w = of_opt EDeclared (tok_f64 (tok_of_word t w)).
+Proof. exact tok_value_agrees. Qed.
+Print Assumptions ascii_value_agrees.
+
+(* ---- list count and index types ---- *)
+
+(* uchar, int and uint counts, both byte orders: the count is read back as written and exactly its bytes are consumed *)
+Theorem count_types_ok : forall e ct n rest,
+  count_ty_ok ct = true -> word_fits ct n -> n < 2 ^ 31 ->
+  read_count e ct (enc_word e ct n ++ rest) = Ok (Z.of_N n, rest).
+Proof. exact read_count_enc_proof. Qed.
+Print Assumptions count_types_ok.
+
+(* any list property (supported count type; items of ANY of the eight types) is consumed exactly, and changes the
+   reader state as [face_step] says: index buffer for int/uint items of the index property, texture buffer for
+   float/double items of the texcoord property, nothing for every other list property *)
+Theorem list_property_consumed : forall e ip tp rs f k st rest,
+  Forall2 list_ok rs f ->
+  face_bin e rs k ip tp (enc_face_bin e rs f ++ rest) st = Ok (face_fold rs f k ip tp st, rest).
+Proof. intros. apply face_bin_enc. assumption. Qed.
+Print Assumptions list_property_consumed.
+
+(* ---- "each quad contributes the two fan triangles over its listed vertices" ---- *)
+
+(* binary files (both byte orders), face element made of any list properties (none called texcoord), the index
+   property at position ip with int or uint items, every face listing three or four vertices: the index buffer of
+   the mesh is the concatenation, in face order, of the triangle itself or of the fan (0,1,2),(0,2,3).
+   _partial: ascii faces and faces with a texcoord list (per-corner UVs, unweld) are covered by the
+   correspondence check only.  FULL STATEMENT: the same for ascii and with a texcoord property present. *)
+Theorem quad_fan_partial : forall e rs ip ct lt (fs : list (list (list N))) rest st,
+  nth_error rs ip = Some (ct, lt) -> index_ty_ok lt = true ->
+  Forall (face_ok rs ip) fs ->
+  faces_bin e rs ip None (flat_map (enc_face_bin e rs) fs ++ rest) (List.length fs) st =
+  Ok (flat_map (fun f => fan_tris (map signed32 (nth ip f []))) fs, []).
+Proof. exact quad_fan_bin_proof. Qed.
+Print Assumptions quad_fan_partial.
+
+(* ---- comment and obj_info lines, blank lines, aliases ---- *)
+
+(* noise lines inserted anywhere between the format line and end_header change neither the format nor the
+   declared elements and properties (only the comment list); CRLF is removed by the tokenizer, outside the model *)
+Theorem header_noise_ignored : forall magic fl body noisy,
+  fl <> [] -> with_noise body noisy ->
+  strip_comments (parse_header (magic :: fl :: noisy)) = strip_comments (parse_header (magic :: fl :: body)).
+Proof. exact header_noise_ignored_proof. Qed.
+Print Assumptions header_noise_ignored.
+
+(* char/int8, uchar/uint8, short/int16, ushort/uint16, int/int32, uint/uint32, float/float32, double/float64 *)
+Theorem aliases_same_type : Forall (fun p => same_type (fst p) (snd p)) alias_pairs.
+Proof. exact aliases_same_type_proof. Qed.
+Print Assumptions aliases_same_type.
+
+(* a scalar or list property line spelled with either name of a type is the same declaration *)
+Theorem alias_lines_agree : Forall (fun p => forall name st,
+    hstep ["property"; fst p; name] st = hstep ["property"; snd p; name] st /\
+    (forall lt, hstep ["property"; "list"; fst p; lt; name] st = hstep ["property"; "list"; snd p; lt; name] st) /\
+    (forall ct, hstep ["property"; "list"; ct; fst p; name] st = hstep ["property"; "list"; ct; snd p; name] st))%string alias_pairs.
+Proof. exact alias_lines_agree_proof. Qed.
+Print Assumptions alias_lines_agree.
+
+(* ---- non-vacuity: a big-endian file with a double before the position, colour bytes, a quad and a triangle ---- *)
+Example c08_example :
+  let ps : vprops := [(Double, "time"); (Float, "x"); (UChar, "red"); (Float, "y"); (Float, "z"); (Int, "id")]%string in
+  let rec := [4591870180066957722; 1065353216; 255; 1073741824; 1077936128; 16777217] in
+  let a := {| a_fmt := BinBE; a_vprops := ps; a_verts := [rec; rec; rec; rec];
+              a_fprops := Some [(UChar, Int, "vertex_indices"%string)]; a_faces := [[[0; 1; 2; 3]]; [[3; 1; 0]]] |} in
+  offsets true ps "id" = Some (21%nat, Int) /\
+  read_field BinBE 21 Int (encode_record BinBE ps rec) = Some (FWord 16777217) /\
+  option_map m_idx (match read_mesh (encode a) with Ok m => Some m | Err _ => None end) = Some [0; 1; 2; 0; 2; 3; 3; 1; 0]%Z /\
+  (match read_mesh (encode a), describe a with Ok m, Ok m' => mesh_eqb m m' | _, _ => false end) = true.
+Proof. vm_compute. repeat split; reflexivity. Qed.
